@@ -141,6 +141,7 @@ class B:
         self.labels = []
         self.reads = 0
         self.stale_possible = False
+        self.tuple_derived = False
 
     def nm(self, p="v"):
         self.k += 1
@@ -177,6 +178,14 @@ class B:
             other = self.draw(st.integers(0, 50))
             getattr(self, where)["var"] += [f"{v} = {other}", f"{v} = {expr}"]
             self.stale_possible = True
+            if other % 3 == 0:
+                # (no extra draw) the re-bound name is read by a compound element of a top-level tuple assignment of all-new names:
+                # the element must be evaluated at its program point, not as a static initialiser from the first binding
+                w, u = self.nm("d"), self.nm("d")
+                self.body["var"] += [f"{w}, {u} = {v} + 0, {other}"] if where == "body" else []
+                if where == "body":
+                    self.tuple_derived = True
+                    return expr, w
         elif how in ("swapped", "rotated"):
             # the operand reaches its name through a swap / three-way rotation of already assigned names (tuple assignment through temporaries)
             w = self.nm("d")
